@@ -524,6 +524,57 @@ def r10_child_helper_on_own_node(ctx, rule="C08.R10"):
     ctx.require(rule, 3)
 
 
+def r13_argument_validators_mean_what_they_say(ctx, rule="C08.R13"):
+    """The checks of the built-ins are built from a handful of shared validators; the run functions rely
+    on them (STR$ matches on the four numeric variants and panics on anything else, the count / handle
+    accessors cast).  Each validator's predicate is evaluated (TagFlow) on an argument of every kind of
+    type: the numeric validators accept the four numeric built-in types and nothing else - no record, no
+    whole array, no unresolved expression -, the string validator a string or STRING * n."""
+    from .. import optables as ot, tagflow as tf
+    prog = ctx.prog
+    T = ot.OpTables(prog)
+    ets = [a["id"] for a in prog.adts.values() if a["path"].endswith("::ExpressionType")]
+    if len(ets) != 1:
+        raise CheckError("anchor ExpressionType")
+    ET = ets[0]
+    allq = ["BangSingle", "HashDouble", "DollarString", "PercentInteger", "AmpersandLong"]
+    cases = [("BuiltIn(%s)" % q, T.eng.make(ET, "BuiltIn", {0: tf.Tag(ot.TQ, q)}), "str" if q == "DollarString" else "num")
+             for q in allq]
+    cases += [("STRING*n", T.eng.make(ET, "FixedLengthString", {}), "str"),
+              ("record", T.eng.make(ET, "UserDefined", {}), None),
+              ("unresolved", T.eng.make(ET, "Unresolved", {}), None)]
+    for q in ("PercentInteger", "DollarString"):
+        cases.append(("array of %s" % q, T.eng.make(ET, "Array", {0: tf.Box(T.eng.make(ET, "BuiltIn", {0: tf.Tag(ot.TQ, q)}))}), None))
+    fns = [f for f in prog.fns.values() if f.crate == "rusty_linter" and "arg_validation" in (f.file or "")
+           and f.kind != "closure" and f.impl is not None
+           and f.name in ("require_integer_argument", "require_long_argument", "require_double_argument",
+                          "require_numeric_argument", "require_string_argument")]
+    if len(fns) < 5:
+        raise CheckError("%s: %d of the five argument validators found" % (rule, len(fns)))
+    for f in sorted(fns, key=lambda x: x.name):
+        cl = prog.closures_of(f)
+        if len(cl) != 1:
+            raise CheckError("%s: %s has %d predicate closures" % (rule, f.name, len(cl)))
+        want_kind = "str" if "string" in f.name else "num"
+        for form, slot in (("Variable", 1), ("ArrayElement", 2), ("Property", 2), ("FunctionCall", None)):
+            if slot is None:
+                continue
+            for name, et, kind in cases:
+                e = T.eng.make(ot.EXPR, form, {slot: et})
+                rs = {tf.shape(x) for x in T.eng.summary(cl[0], (tf.Ref(tf.TOP), tf.Ref(e)))}
+                want = {"1"} if kind == want_kind else {"0"}
+                # `A()` (no subscripts) is the whole array: with the subscript list unknown an element of
+                # an acceptable type may also be refused
+                good = rs == want or (form == "ArrayElement" and want == {"1"} and "1" in rs)
+                ctx.decide(good, rule, "%s:%s(%s %s)" % (rule, f.name, form, name), f.loc,
+                           "accepts" if want == {"1"} else "refuses",
+                           "%s %s an Expression::%s whose type is %s (predicate yields %s): %s"
+                           % (f.name, "does not refuse" if want == {"0"} else "does not accept", form, name, sorted(rs),
+                              "the run function of the built-in gets a value it has no case for (a panic, or Type "
+                              "mismatch at run time in an accepted program)" if want == {"0"} else "a correct call is refused"))
+    ctx.require(rule, 5 * 3 * 10)
+
+
 def run(ctx):
     common.install(ctx)
     r1_traversal(ctx)
@@ -540,5 +591,6 @@ def run(ctx):
     # what the checker lets through as an array subscript the generator must be able to resolve
     from . import c12
     c12.r9_subscripts_are_numeric(ctx, "C08.R12")
+    r13_argument_validators_mean_what_they_say(ctx)
     from . import panics
     panics.r_audit(ctx, "C08.R6", scope="backend")
